@@ -33,6 +33,7 @@ def concurrent_units(ctx):
         McUnit("orderedset", "SetLockImpl", "reentrant", name="ctl-deleteall-reentrant", expect="NoDeadlock"),
         McUnit("orderedset", "SetLockImpl", "computer", name="ctl-compute-rlock", expect="AtomicWeak"),
         lin.LinUnit("orderedset", "SetLin", "setconc", ["-histories", 60, "-mixes", 30], ["-histories", 600, "-mixes", 200], "Set", name="SetLin:setconc"),
+        lin.LinUnit("orderedset", "MapLin", "mapconc", ["-histories", 60], ["-histories", 600], "OrderedMap", name="MapLin:mapconc"),
     ]
 
 
